@@ -24,7 +24,12 @@ type even[T xmath.Numeric] struct{}
 
 func (even[T]) Matches(n *nd[T]) bool { return n.id%2 == 0 }
 
+var general bool // the case being generated uses tenths (not exactly representable), kind=g
+
 func coord(r *hx.Rand, isInt bool, span int) float64 {
+	if general {
+		return float64(r.Range(-span*10, span*10)) / 10
+	}
 	if isInt {
 		return float64(r.Range(-span, span))
 	}
@@ -43,6 +48,9 @@ func size(r *hx.Rand, isInt bool) float64 {
 	case 2:
 		return float64(r.Range(50, 400)) // huge
 	default:
+		if general {
+			return float64(r.Range(1, 120)) / 10
+		}
 		if isInt {
 			return float64(r.Range(1, 12))
 		}
@@ -54,7 +62,11 @@ func gen(r *hx.Rand, n int) []string {
 	var out []string
 	for c := 0; c < n; c++ {
 		isInt := r.Bool()
+		general = !isInt && r.Chance(1, 3) // a third of the float cases use tenths: x+w rounds, see runG
 		th := []int{0, 4, 5, 8, 64, 1000}[r.Intn(6)]
+		if general {
+			th = []int{0, 4, 4, 5, 8, 64}[r.Intn(6)]
+		}
 		span := []int{8, 30, 100}[r.Intn(3)]
 		nops := r.Range(1, 50)
 		if th >= 64 && r.Chance(1, 2) {
@@ -181,6 +193,10 @@ func gen(r *hx.Rand, n int) []string {
 		if isInt {
 			k = "i"
 		}
+		if general {
+			k = "g"
+			general = false
+		}
 		out = append(out, fmt.Sprintf("kind=%s th=%d pts=%s rects=%s |%s", k, th, strings.Join(pts, ","), strings.Join(prs, ","), strings.Join(ops, ";")))
 	}
 	return out
@@ -253,6 +269,106 @@ func runT[T xmath.Numeric](th int, pts [][2]float64, prs [][4]float64, body stri
 	return strings.Join(done, " / ")
 }
 
+// runG: general (non-dyadic) float64 coordinates, where x+w rounds. The exact model does not apply; instead every query of the
+// tree is compared right here with a linear scan of the live nodes using the same geom predicates (which is what the property
+// says the answer is). Observation per operation: "ok" or "MISMATCH:<query>".
+func runG(th int, pts [][2]float64, prs [][4]float64, body string) string {
+	q := &quadtree.QuadTree[float64, *nd[float64]]{Threshold: th}
+	nodes := map[int]*nd[float64]{}
+	var live []*nd[float64]
+	var done []string
+	m := even[float64]{}
+	same := func(got []*nd[float64], want []*nd[float64]) bool { return ids(got) == ids(want) }
+	for _, o := range strings.Split(body, ";") {
+		f := strings.Fields(o)
+		if len(f) == 0 {
+			continue
+		}
+		switch f[0] {
+		case "ins":
+			id := hx.Atoi(f[1])
+			n, ok := nodes[id]
+			if !ok {
+				n = &nd[float64]{id: id, r: geom.NewRect(hx.ParseRat(f[2]), hx.ParseRat(f[3]), hx.ParseRat(f[4]), hx.ParseRat(f[5]))}
+				nodes[id] = n
+			}
+			q.Insert(n)
+			if !n.r.Empty() {
+				live = append(live, n)
+			}
+		case "rem":
+			id := hx.Atoi(f[1])
+			n, ok := nodes[id]
+			if !ok {
+				n = &nd[float64]{id: id, r: geom.NewRect[float64](0, 0, 1, 1)}
+			}
+			q.Remove(n)
+			for i, l := range live {
+				if l == n {
+					live = append(live[:i:i], live[i+1:]...)
+					break
+				}
+			}
+		case "reorg":
+			q.Reorganize()
+		case "clear":
+			q.Clear()
+			live = nil
+		default:
+			return "BADCASE"
+		}
+		scan := func(pred func(r geom.Rect[float64]) bool, onlyEven bool) []*nd[float64] {
+			var out []*nd[float64]
+			for _, l := range live {
+				if pred(l.r) && (!onlyEven || l.id%2 == 0) {
+					out = append(out, l)
+				}
+			}
+			return out
+		}
+		bad := ""
+		note := func(name string, okk bool) {
+			if !okk && bad == "" {
+				bad = name
+			}
+		}
+		note("size", q.Size() == len(live))
+		note("all", same(q.All(), live))
+		for _, p := range pts {
+			pt := geom.NewPoint(p[0], p[1])
+			in := func(r geom.Rect[float64]) bool { return pt.In(r) }
+			note("point", same(q.FindContainsPoint(pt), scan(in, false)) && q.ContainsPoint(pt) == (len(scan(in, false)) > 0) &&
+				same(q.FindMatchedContainsPoint(m, pt), scan(in, true)) && q.MatchedContainsPoint(m, pt) == (len(scan(in, true)) > 0))
+		}
+		for _, p := range prs {
+			rc := geom.NewRect(p[0], p[1], p[2], p[3])
+			for name, pr := range map[string]func(r geom.Rect[float64]) bool{
+				"intersects":   func(r geom.Rect[float64]) bool { return r.Intersects(rc) },
+				"contains":     func(r geom.Rect[float64]) bool { return r.Contains(rc) },
+				"contained-by": func(r geom.Rect[float64]) bool { return rc.Contains(r) },
+			} {
+				var fa, fm []*nd[float64]
+				var ba, bm bool
+				switch name {
+				case "intersects":
+					fa, ba, fm, bm = q.FindIntersects(rc), q.Intersects(rc), q.FindMatchedIntersects(m, rc), q.MatchedIntersects(m, rc)
+				case "contains":
+					fa, ba, fm, bm = q.FindContainsRect(rc), q.ContainsRect(rc), q.FindMatchedContainsRect(m, rc), q.MatchedContainsRect(m, rc)
+				default:
+					fa, ba, fm, bm = q.FindContainedByRect(rc), q.ContainedByRect(rc), q.FindMatchedContainedByRect(m, rc), q.MatchedContainedByRect(m, rc)
+				}
+				note(name, same(fa, scan(pr, false)) && ba == (len(scan(pr, false)) > 0) && same(fm, scan(pr, true)) && bm == (len(scan(pr, true)) > 0))
+			}
+		}
+		if bad == "" {
+			done = append(done, "ok")
+		} else {
+			done = append(done, "MISMATCH:"+bad)
+		}
+	}
+	return strings.Join(done, " / ")
+}
+
 func run(c string) (obs string) {
 	defer func() {
 		if e := recover(); e != nil {
@@ -285,6 +401,9 @@ func run(c string) (obs string) {
 	}
 	if kind == "i" {
 		return runT[int](th, pts, prs, body)
+	}
+	if kind == "g" {
+		return runG(th, pts, prs, body)
 	}
 	return runT[float64](th, pts, prs, body)
 }
